@@ -4,6 +4,7 @@
 import warnings
 
 from .._util import _any, get_backend
+from ..units import rescale
 
 
 def water_permittivity(
@@ -54,6 +55,8 @@ def water_permittivity(
         T = 298.15 * K
     if P is None:
         P = 1 * bar
+    if units is not None:  # the parameters U carry kelvin and bar
+        T, P = rescale(T, K), rescale(P, bar)
     if U is None:
         U = (
             3.4279e2,
